@@ -190,10 +190,16 @@ class TmpProxy:
 
     def mkstemp(self, suffix=None, prefix=None, dir=None, text=False):
         PLAN.hit("mkstemp", path=dir)
-        self.counter += 1
-        name = os.path.join(dir or tempfile.gettempdir(), f"{prefix or 'tmp'}{os.getpid() % 1000:03d}{self.counter:04d}{suffix or ''}")
-        fd = os.open(name, os.O_RDWR | os.O_CREAT | os.O_EXCL, 0o600)
-        return fd, name
+        while True:
+            # deterministic names, but - like the real mkstemp - never an existing one (a crashed writer leaves its
+            # temporary file behind, and pids repeat modulo 1000)
+            self.counter += 1
+            name = os.path.join(dir or tempfile.gettempdir(), f"{prefix or 'tmp'}{os.getpid() % 1000:03d}{self.counter:04d}{suffix or ''}")
+            try:
+                fd = os.open(name, os.O_RDWR | os.O_CREAT | os.O_EXCL, 0o600)
+            except FileExistsError:
+                continue
+            return fd, name
 
 
 FS_OS = OSProxy()
